@@ -1,6 +1,8 @@
 package main
 
 import (
+	"go/types"
+	"os"
 	"fmt"
 	"go/token"
 	"sort"
@@ -676,8 +678,10 @@ func ruleC19_1(c *Ctx, r *Rep) {
 			}
 		}
 	}
-	if q == nil {
-		r.Fail("C19.1", "C19.1:shape", body.Pos(), "the outcome queue is not a phi of the ack/nack queues")
+	if q == nil || os.Getenv("MB_FORCE_PROV") != "" {
+		// the queue is not chosen by a plain phi in the goroutine (e.g. it travels in a result struct filled by
+		// helpers): decide the same three obligations from the path-sensitive provenance of the queue value
+		c19ByProvenance(c, r, body)
 		return
 	}
 	// edgeQueue: which queue arrives at q's block when control comes from pred p (following nested phis)
@@ -837,6 +841,126 @@ func ruleC19_1(c *Ctx, r *Rep) {
 	}
 	okErr = okErr && okDefault
 	r.Check("C19.1", "C19.1:failures-nack", body.Pos(), okErr && okTransport, "transport errors and every other status go to the nack queue", "a transport error or a non-success status does not lead to the nack queue: the message would be acknowledged")
+}
+
+// c19ByProvenance: C19.1 decided from the alternatives (K9b) of the channel the push outcome is sent on.
+func c19ByProvenance(c *Ctx, r *Rep, body *ssa.Function) {
+	var sel *ssa.Select
+	var ch ssa.Value
+	for _, b := range body.Blocks {
+		for _, in := range b.Instrs {
+			if s2, ok := in.(*ssa.Select); ok {
+				for _, st := range s2.States {
+					if st.Dir == types.SendOnly && st.Send != nil && sources(st.Send)["field:ID"] {
+						sel, ch = s2, st.Chan
+					}
+				}
+			}
+		}
+	}
+	if sel == nil {
+		r.Fail("C19.1", "C19.1:shape", body.Pos(), "the pushing goroutine does not report its outcome on a queue")
+		return
+	}
+	alts, ok := provenanceOf(c, body, sel, ch)
+	if !ok || len(alts) == 0 {
+		r.Undecided("C19.1", "C19.1:shape", sel.Pos(), "the queue on which the push outcome is reported could not be traced to the ack / nack queues")
+		return
+	}
+	success := map[int64]bool{}
+	nonEq, ackWithoutCode, unknownQueue := false, false, false
+	okTransport, sawTransport := true, false
+	okDefault, sawDefault := true, false
+	for _, a := range alts {
+		qn := queueOf(a.leaf)
+		if qn == "" {
+			unknownQueue = true
+			continue
+		}
+		isAck := qn == "fastAckQueue" || qn == "slowAckQueue"
+		var eq []int64
+		transport := false
+		for _, cd := range a.conds {
+			bo, isB := cd.V.(*ssa.BinOp)
+			if !isB {
+				continue
+			}
+			if sources(bo.X)["field:StatusCode"] {
+				if kc, isC := constInt(bo.Y); isC && bo.Op == token.EQL {
+					if cd.Pol {
+						eq = append(eq, kc)
+					}
+				} else {
+					nonEq = true
+				}
+			}
+			if isNilConst(bo.Y) && (bo.Op == token.NEQ) == cd.Pol {
+				// the error result of the round trip itself
+				x := resolve(bo.X)
+				if prm, isP := x.(*ssa.Parameter); isP {
+					if a := uniqueCallerArg(prm); a != nil {
+						x = resolve(a)
+					}
+				}
+				if ex, isE := x.(*ssa.Extract); isE && ex.Index == 1 {
+					if dc, isC := ex.Tuple.(*ssa.Call); isC && dc.Call.StaticCallee() != nil && dc.Call.StaticCallee().Name() == "Do" {
+						transport = true
+					}
+				}
+			}
+		}
+		if os.Getenv("MB_DEBUG_PROV") != "" {
+			fmt.Fprintf(os.Stderr, "ALT queue=%s eq=%v transport=%v nconds=%d\n", qn, eq, transport, len(a.conds))
+		}
+		switch {
+		case transport:
+			sawTransport = true
+			if isAck {
+				okTransport = false
+			}
+		case len(eq) == 0:
+			sawDefault = true
+			if isAck {
+				okDefault, ackWithoutCode = false, true
+			}
+		default:
+			if isAck {
+				for _, k := range eq {
+					success[k] = true
+				}
+			}
+		}
+	}
+	if unknownQueue {
+		r.Undecided("C19.1", "C19.1:shape", sel.Pos(), "one of the values the outcome queue can have is not one of the connection's ack / nack queues")
+		return
+	}
+	want := []int64{102, 200, 201, 202, 204}
+	var got []int64
+	for k := range success {
+		got = append(got, k)
+	}
+	sort.Slice(got, func(i, j int) bool { return got[i] < got[j] })
+	okS := !nonEq && !ackWithoutCode && len(got) == len(want)
+	for i := range want {
+		if i >= len(got) || got[i] != want[i] {
+			okS = false
+		}
+	}
+	r.Check("C19.1", "C19.1:success-set", body.Pos(), okS, "acknowledged exactly for 102, 200, 201, 202, 204",
+		fmt.Sprintf("the set of HTTP statuses that acknowledge a pushed message is %v (range comparisons: %v, ack without a status test: %v), not exactly {102,200,201,202,204}: another final status would ack the message and it is never pushed again", got, nonEq, ackWithoutCode))
+	okReported := true
+	for _, ret := range returnsOf(body) {
+		if len(ret.Block().Preds) == 0 && ret.Block() != body.Blocks[0] {
+			continue
+		}
+		if !instrDominates(sel, ret) {
+			okReported = false
+		}
+	}
+	r.Check("C19.1", "C19.1:outcome-always-reported", body.Pos(), okReported, "every push ends with an ack or a nack on a queue",
+		"the pushing goroutine can end without reporting the push on any queue (e.g. an early return for some transport errors): the message is neither acknowledged nor nacked, so it is not pushed again after the backoff and occupies a window slot for good")
+	r.Check("C19.1", "C19.1:failures-nack", body.Pos(), okTransport && sawTransport && okDefault && sawDefault, "transport errors and every other status go to the nack queue", "a transport error or a non-success status does not lead to the nack queue: the message would be acknowledged")
 }
 
 func ruleC19_2(c *Ctx, r *Rep) {
